@@ -109,6 +109,11 @@ Definition f_enum (p : param) (s : sentry) : bool :=
 Definition fields_match (p : param) (s : sentry) : bool :=
   f_type p s && f_units p s && f_min p s && f_max p s && f_default p s && f_enum p s.
 
+(* the rows of the generated parameter reference (.rst) carry the PREFERRED units, no category and no option list *)
+Definition f_pref (p : param) (s : sentry) : bool := String.eqb (s_units s) (p_pref p).
+Definition rst_match (p : param) (s : sentry) : bool :=
+  f_type p s && f_pref p s && f_min p s && f_max p s && f_default p s.
+
 (* a schema entry against the table: only claimed when the name is declared identically everywhere *)
 Definition entry_ok (f : param -> sentry -> bool) (t : list param) (s : sentry) : bool :=
   match find_name (s_name s) t with
@@ -116,6 +121,7 @@ Definition entry_ok (f : param -> sentry -> bool) (t : list param) (s : sentry) 
   | None => true      (* reported by the names check *)
   end.
 Definition fields_ok (t : list param) (sch : list sentry) : bool := forallb (entry_ok fields_match t) sch.
+Definition rst_ok (t : list param) (sch : list sentry) : bool := forallb (entry_ok rst_match t) sch.
 
 (* ---- what a schema entry allows ---- *)
 Definition ole (o : option Q) (v : Q) : bool := match o with Some m => Qleb m v | None => true end.
@@ -174,6 +180,14 @@ Definition same_strings (a b : list string) : bool := forallb (str_in b) a && fo
 Definition extractable (client : list (string * string)) (f : rfield) : bool :=
   match f with (c, n, _) => existsb (fun x => String.eqb (fst x) c && String.eqb (snd x) n) client end.
 Definition result_fields_ok (client : list (string * string)) (sch : list rfield) : bool := forallb (extractable client) sch.
+
+(* a real report: every schema field whose label the report prints must come back from the client with a value *)
+Definition pair_in (l : list (string * string)) (c n : string) : bool :=
+  existsb (fun x => String.eqb (fst x) c && String.eqb (snd x) n) l.
+Definition report_field_ok (printed extracted : list (string * string)) (f : rfield) : bool :=
+  match f with (c, n, _) => negb (pair_in printed c n) || pair_in extracted c n end.
+Definition report_ok (sch : list rfield) (printed extracted : list (string * string)) : bool :=
+  forallb (report_field_ok printed extracted) sch.
 
 (* ---- harness entry points: (number of items, indices on which the check is false) ---- *)
 Definition bad {A : Type} (f : A -> bool) (l : list A) : nat * list nat := (List.length l, mismatches f 0 l).
